@@ -630,7 +630,7 @@ pub fn property() -> Property {
         subchecks: vec![
             SubCheck {
                 name: "format",
-                driver: Driver::Generated { gen: gen_san_pos_case, genome_len: 224, quick: 200_000, thorough: 4_000_000 },
+                driver: Driver::Generated { gen: gen_san_pos_case, genome_len: 224, quick: 600_000, thorough: 4_800_000 },
                 check: format_case,
                 configs: Configs::ReleaseOnly,
                 required: &["file_hint", "rank_hint", "both_hints", "pinned_candidate_excluded", "check_mark", "mate_mark", "promotion", "en_passant", "castling", "check_with_only_ep_replies"],
@@ -641,7 +641,7 @@ pub fn property() -> Property {
             },
             SubCheck {
                 name: "parse_soundness",
-                driver: Driver::Generated { gen: gen_text_case, genome_len: 320, quick: 500_000, thorough: 10_000_000 },
+                driver: Driver::Generated { gen: gen_text_case, genome_len: 320, quick: 1_500_000, thorough: 12_000_000 },
                 check: text_case,
                 configs: Configs::Both,
                 required: &["accepted", "accepted_special", "ambiguity_reported", "refused_by_position", "refused_by_syntax", "short_capture_text", "castling_text", "castling_text_refused_by_position"],
@@ -653,7 +653,7 @@ pub fn property() -> Property {
             },
             SubCheck {
                 name: "short_captures_all_file_pairs",
-                driver: Driver::Generated { gen: gen_short_case, genome_len: 224, quick: 60_000, thorough: 1_500_000 },
+                driver: Driver::Generated { gen: gen_short_case, genome_len: 224, quick: 180_000, thorough: 1_500_000 },
                 check: short_case,
                 configs: Configs::Both,
                 required: &["ep_mark_on_edge_file", "accepted", "ambiguity_reported"],
@@ -662,7 +662,7 @@ pub fn property() -> Property {
             },
             SubCheck {
                 name: "variants",
-                driver: Driver::Generated { gen: gen_san_pos_case, genome_len: 224, quick: 120_000, thorough: 2_500_000 },
+                driver: Driver::Generated { gen: gen_san_pos_case, genome_len: 224, quick: 360_000, thorough: 2_880_000 },
                 check: variants_case,
                 configs: Configs::ReleaseOnly,
                 required: &["over_disambiguated", "omitted_capture_mark", "omitted_equals", "short_capture", "file_hint_variant", "rank_hint_variant"],
